@@ -15,6 +15,7 @@ import (
 type Item struct {
 	Kind string // "decl", "def", "assume", "comment"
 	Text string
+	Blk  int // root-level basic block during whose encoding the item was produced (-1: entry / exit of the function)
 }
 
 type Obligation struct {
@@ -23,6 +24,7 @@ type Obligation struct {
 	Tags    []string
 	Fn      string
 	Goal    string // SMT Bool term that must be valid given items[:N]
+	Blk     int    // root-level block in which the obligation arises (-1: at function exit, sees every block)
 	N       int    // number of items visible
 	ExpSat  bool   // cover/vacuity: expected satisfiable (goal is asserted positively)
 	Src     string // spec source text / description
@@ -46,11 +48,14 @@ type Root struct {
 	writeLog map[string]map[int]bool
 	modsets  map[int]map[string]bool // loop head block index -> state vars written in loop (from discovery pass)
 	discover bool
+	// callsModAll: the function calls a contract with 'modifies *' (see havocModifies)
+	callsModAll bool
 	nopanic  bool
 	allocs   []string // refs allocated by this activation (not in loops)
 	errs     []string
 	siteCnt  map[string]int
 	curBlock int // current root-level block index (for write logging)
+	cones    map[int]map[int]bool
 	fnShort  string
 	inputs   []ModelInput
 	locals   map[string]bool
@@ -71,7 +76,7 @@ func (r *Root) fresh(prefix string) string {
 }
 
 func (r *Root) decl(name, sort string) string {
-	r.items = append(r.items, Item{"decl", fmt.Sprintf("(declare-const %s %s)", name, sort)})
+	r.items = append(r.items, Item{"decl", fmt.Sprintf("(declare-const %s %s)", name, sort), r.curBlock})
 	return name
 }
 
@@ -83,16 +88,17 @@ func (r *Root) assume(f string) {
 		r.seenAssume = map[string]bool{}
 	}
 	if len(f) < 400 {
-		if r.seenAssume[f] {
+		k := fmt.Sprintf("%d|%s", r.curBlock, f)
+		if r.seenAssume[k] {
 			return
 		}
-		r.seenAssume[f] = true
+		r.seenAssume[k] = true
 	}
-	r.items = append(r.items, Item{"assume", "(assert " + f + ")"})
+	r.items = append(r.items, Item{"assume", "(assert " + f + ")", r.curBlock})
 }
 
 func (r *Root) comment(s string) {
-	r.items = append(r.items, Item{"comment", "; " + strings.ReplaceAll(s, "\n", " ")})
+	r.items = append(r.items, Item{"comment", "; " + strings.ReplaceAll(s, "\n", " "), r.curBlock})
 }
 
 func isAtom(t string) bool {
@@ -105,7 +111,7 @@ func (r *Root) def(prefix, sort, term string) string {
 		return term
 	}
 	n := r.fresh(prefix)
-	r.items = append(r.items, Item{"def", fmt.Sprintf("(define-fun %s () %s %s)", n, sort, term)})
+	r.items = append(r.items, Item{"def", fmt.Sprintf("(define-fun %s () %s %s)", n, sort, term), r.curBlock})
 	return n
 }
 
@@ -129,7 +135,7 @@ func (r *Root) initState(name string) string {
 	}
 	c := "S0_" + mangle(name)
 	// initial constants are declared at the very beginning (they are inputs)
-	r.items = append([]Item{{"decl", fmt.Sprintf("(declare-const %s %s)", c, s)}}, r.items...)
+	r.items = append([]Item{{"decl", fmt.Sprintf("(declare-const %s %s)", c, s), -1}}, r.items...)
 	for _, o := range r.obls {
 		o.N++
 	}
@@ -142,6 +148,7 @@ func (r *Root) addObl(o *Obligation) {
 		return
 	}
 	o.N = len(r.items)
+	o.Blk = r.curBlock
 	o.Root = r
 	o.Fn = r.fnShort
 	base := o.Name
@@ -194,6 +201,7 @@ type Enc struct {
 type retInfo struct {
 	okRet bool // success return: last result is the constant nil error (or the function has no error result)
 	pos   string
+	blk   int
 	reach string
 	vals  []string
 	st    map[string]string
@@ -536,7 +544,7 @@ func (e *Enc) globalInit(l *Loc) {
 			id = len(g.errGlobals) + 1
 			g.errGlobals[l.Name] = id
 		}
-		e.r.items = append([]Item{e.r.items[0], {"assume", fmt.Sprintf("(assert (= %s %d))", c, id)}}, e.r.items[1:]...)
+		e.r.items = append([]Item{e.r.items[0], {"assume", fmt.Sprintf("(assert (= %s %d))", c, id), -1}}, e.r.items[1:]...)
 		for _, o := range e.r.obls {
 			o.N++
 		}
@@ -810,7 +818,7 @@ func (e *Enc) encodeBlockEntry(b *ssa.BasicBlock) {
 	r := e.r
 	if b.Index == 0 {
 		rn := r.fresh(e.pfx + "reach_b0")
-		r.items = append(r.items, Item{"def", fmt.Sprintf("(define-fun %s () Bool %s)", rn, e.guard)})
+		r.items = append(r.items, Item{"def", fmt.Sprintf("(define-fun %s () Bool %s)", rn, e.guard), r.curBlock})
 		e.reach[b] = rn
 		e.st = copyState(e.entrySt)
 		return
@@ -832,7 +840,7 @@ func (e *Enc) encodeBlockEntry(b *ssa.BasicBlock) {
 	if len(preds) == 0 {
 		// unreachable block
 		rn := r.fresh(e.pfx + fmt.Sprintf("reach_b%d", b.Index))
-		r.items = append(r.items, Item{"def", fmt.Sprintf("(define-fun %s () Bool false)", rn)})
+		r.items = append(r.items, Item{"def", fmt.Sprintf("(define-fun %s () Bool false)", rn), r.curBlock})
 		e.reach[b] = rn
 		e.st = copyState(e.entrySt)
 		return
